@@ -5,7 +5,7 @@ T: for every public indicator with a `sequential` parameter and every field: the
    input, the sequential series on the trailing 240-candle window and the non-sequential result are recorded for
    input lengths below / at / above 240; TLC (TraceSeqSingle.tla) decides length alignment and single = the entry
    the call must return."""
-import contextlib, io, random
+import contextlib, io, json, os, random
 from .. import tlc
 from ..core import Machinery
 from ..drivers import indicators as D
@@ -118,6 +118,94 @@ def record(entry, kw, sp, c, c2, stats, only_field=None):
     return out
 
 
+# ------------------------------------------------------------------------------------------------ short inputs
+def short_job(item):
+    """guarded short-input mode: one indicator in its own forked child (NUMBA_BOUNDSCHECK=1), inputs SHORTER than its
+    window parameters.  Only the shape of the sequential result is recorded (judged: one entry per candle); an exception
+    on a too-short input is 'skipped'.  Results are flushed to a file after every call, so that a child dying in a
+    memory-unsafe kernel keeps what it had recorded."""
+    entry, vsets, path = item
+    rec = {"traces": {}, "skipped": 0, "calls": 0, "not_series": 0}
+
+    def flush():
+        with open(path + ".tmp", "w") as f:
+            json.dump(rec, f)
+        os.replace(path + ".tmp", path)
+    c_all = D.build_series(("random", 320, 21))
+    c2_all = D.build_series(("random", 320, 1021))
+    with contextlib.redirect_stdout(io.StringIO()):
+        for kw, lengths in vsets:
+            for n in lengths:                    # descending: the riskiest (shortest) inputs come last
+                rec["calls"] += 1
+                try:
+                    r = D.call(entry, c_all[:n], c2_all[:n], kw, True)
+                except Exception:
+                    rec["skipped"] += 1
+                    flush()
+                    continue
+                for f, v in D.fields_of(r):
+                    s = D.as_list(v)
+                    if s is None:
+                        rec["not_series"] += 1
+                        continue
+                    kind = D.kind_of(s)
+                    key = "%s|%s" % (f, c13.params_key(kw))
+                    t = rec["traces"].setdefault(key, {"field": f, "kw": kw, "kind": kind, "ev": []})
+                    if kind != t["kind"]:
+                        continue
+                    t["ev"].append({"k": "seq", "n": n, "out": D.enc_series(s, kind, D.scale_of(s, 100.0) * 1e-6)})
+                flush()
+    return entry["name"]
+
+
+def short_plan(ctx, cat, scratch):
+    items = []
+    for e in cat:
+        if not e["sequential"]:
+            continue
+        names = D.period_like(e)
+        if not names:
+            continue
+        vsets = []
+        pmax = min(max(e["params"][n] for n in names), ctx.pick(60, 120))
+        vsets.append(({}, list(range(pmax + 1, 0, -1))))
+        # long windows against the 240-row warm-up window (and a few shorter inputs)
+        vsets.append(({n: 300 for n in names}, [240, 100, 20]))
+        slow = D.slow_variant(e)
+        if slow is not None and not ctx.quick:
+            vsets.append((slow, list(range(min(max(slow.values()) + 1, 160), 0, -3))))
+        items.append((e, vsets, os.path.join(scratch, "short-%s.json" % e["name"])))
+    return items
+
+
+def run_short(ctx, cat):
+    """returns (traces for TraceSeqSingle, statistics)"""
+    d = ctx.sub("short")
+    items = short_plan(ctx, cat, d)
+    res = D.pmap(short_job, items, timeout=300)
+    traces, st = [], {"calls": 0, "skipped_exception": 0, "children_died": [], "non_series_results": 0}
+    for it, r in zip(items, res):
+        e, vsets, path = it
+        if not (isinstance(r, str)):
+            st["children_died"].append("%s: %s" % (e["name"], r[1][:80] if isinstance(r, tuple) else r))
+        if not os.path.exists(path):
+            continue
+        with open(path) as f:
+            rec = json.load(f)
+        st["calls"] += rec["calls"]
+        st["skipped_exception"] += rec["skipped"]
+        st["non_series_results"] += rec["not_series"]
+        for key, t in rec["traces"].items():
+            if not t["ev"]:
+                continue
+            traces.append({"hdr": {"ind": e["name"], "field": t["field"], "kind": t["kind"], "lag": 0, "n": t["ev"][0]["n"],
+                                   "window": W, "params": c13.params_key(t["kw"]) + ",short-input",
+                                   "series": ["random", 320, 21, "lengths %d..%d" % (t["ev"][-1]["n"], t["ev"][0]["n"])],
+                                   "finite": 0},
+                           "ev": t["ev"], "kw": t["kw"], "short": True})
+    return traces, st
+
+
 def plan(ctx, cat):
     rng = random.Random(ctx.seed + 14)
     kinds = ctx.pick(KINDS_Q, KINDS_T)
@@ -179,7 +267,8 @@ def judge(ctx, traces, parts):
             h = t["hdr"]
             ctx.violation(sig_of(h, v), "%s(%s).%s on %d candles of %s: event %s rejected: %s" % (
                 h["ind"], h["params"], h["field"], h["n"], h["series"], t["ev"][l - 1]["k"], v),
-                {"ind": h["ind"], "kw": t["kw"], "series": h["series"], "field": h["field"]})
+                {"ind": h["ind"], "kw": t["kw"], "series": h["series"], "field": h["field"],
+                 "short_lengths": [e["n"] for e in t["ev"]] if t.get("short") else None})
     return verdicts, results, bad
 
 
@@ -220,7 +309,11 @@ def run(ctx):
     silent = sorted(n for n, k in per_ind.items() if k == 0)
     if silent:
         raise Machinery("no trace recorded for %s (the generic caller no longer fits)" % silent)
-    ctx.log("%d traces from %d calls (%d skipped)" % (len(traces), calls, skipped))
+    short_traces, short_stats = run_short(ctx, cat)
+    traces += short_traces
+    ctx.log("%d traces from %d calls (%d skipped); short-input mode: %d traces from %d calls (%d raised, %d children died)" % (
+        len(traces), calls, skipped, len(short_traces), short_stats["calls"], short_stats["skipped_exception"],
+        len(short_stats["children_died"])))
     verdicts, results, bad = judge(ctx, traces, parts=ctx.pick(16, 48))
     for t in traces:
         h = t["hdr"]
@@ -235,7 +328,7 @@ def run(ctx):
     ctx.coverage.update({
         "traces_validated_against_impl": len(traces), "indicator_calls": calls, "cases_skipped_exception": skipped,
         "exception_classes": excs, "single_call_raised_where_sequential_did_not": single_raised[:50],
-        "indicators_covered": len(per_ind), "interpreter_crashes": crashed,
+        "indicators_covered": len(per_ind), "interpreter_crashes": crashed, "short_input_mode": short_stats,
         "fields_covered": len({(t["hdr"]["ind"], t["hdr"]["field"]) for t in traces}),
         "outside_property_no_sequential_parameter": outside, "non_series_fields": notseries,
         "input_lengths": ctx.pick(LENGTHS_Q, LENGTHS_T) + sorted({c[1] for c in LONG_CASES}),
@@ -248,6 +341,8 @@ def run(ctx):
         "for inputs longer than 240 candles the non-sequential result is compared with the sequential series of the trailing "
         "240 candles (the slicing rule), not with the last entry of the sequential series on the whole input",
         "tolerance: one logging unit = 1e-6 x max(|finite values of the series|, 1e-6 x max close)",
+        "short-input mode (inputs of 1..period+1 candles, windows of 300 on 240/100/20 candles): only 'one entry per candle' is "
+        "judged; an exception or a dying child on a too-short input is recorded as skipped, a scalar result is not judged",
         "a case whose sequential call raises is skipped; a non-sequential call that raises where the sequential one did not "
         "is listed in the evidence, not judged"]
 
@@ -257,6 +352,20 @@ def replay(ctx, rp):
     p = rp["payload"]
     cat = {e["name"]: e for e in D.catalog()}
     e = cat[p["ind"]]
+    if p.get("short_lengths"):
+        path = os.path.join(ctx.sub("short"), "replay.json")
+        D.pmap(short_job, [(e, [(p["kw"], p["short_lengths"])], path)], timeout=300)
+        rec = json.load(open(path)) if os.path.exists(path) else {"traces": {}}
+        traces = [{"hdr": {"ind": e["name"], "field": t["field"], "kind": t["kind"], "lag": 0, "n": t["ev"][0]["n"], "window": W,
+                           "params": c13.params_key(t["kw"]) + ",short-input", "series": p["series"], "finite": 0},
+                   "ev": t["ev"], "kw": t["kw"], "short": True}
+                  for t in rec["traces"].values() if t["field"] == p["field"] and t["ev"]]
+        if not traces:
+            raise Machinery("replay produced no trace")
+        verdicts, results, bad = judge(ctx, traces, parts=1)
+        for t in traces:
+            print("replay verdict:", t["hdr"]["ind"], t["hdr"]["field"], verdicts[t["id"]])
+        return
     sp = tuple(p["series"])
     c = D.build_series(sp)
     c2 = D.build_series((sp[0], sp[1], sp[2] + 1000))
